@@ -283,6 +283,42 @@ def _slot_worker(a):
     return res
 
 
+def _report_worker(a):
+    """Directed: a reload adds a service whose name sorts before the one a client is waiting on; an operator then asks for the
+    statistics / the configuration report; a reply from the newcomer - which was never asked about the client - bearing the
+    client's tag is not owed and changes nothing."""
+    b, seed = a["build"], a["seed"]
+    rng = random.Random(seed)
+    old, new = rng.choice([("m.svc", "a.svc"), ("zeta.example.org", "Alpha.Net"), ("login.svc", "drone.svc")])
+    cfg = proto.Config([(old, rng.choice(["login", "login-ipr"]))], timeout=3600)
+    t1 = [(old, cfg.services[0][1]), (new, "dronecheck")]
+    cid = rng.choice([3, 5, 9])
+    pre = [{"t": "announce", "id": cid, "ip": "1.2.3.4", "port": 1000}, {"t": "host", "id": cid, "name": "h.example"}, {"t": "ident", "id": cid, "name": "id"},
+           {"t": "password", "id": cid, "text": "+x alice pw"}, {"t": "reload", "services": t1}]
+    pre += [rng.choice([{"t": "stats"}, {"t": "noise", "line": "-1 ? config"}, {"t": "noise", "line": "-1 ? stats2"}]) for _ in range(rng.choice([1, 2]))]
+    post = [{"t": "stats"}, {"t": "reply", "svc": old, "tag": "%x_1" % cid, "text": rng.choice(["OK alice", "NO wrong password"])},
+            {"t": "nick", "id": cid, "name": "nick"}, {"t": "userinfo", "id": cid, "user": "u", "real": "r"}, {"t": "hurry", "id": cid}, {"t": "stats"}]
+    events = pre + post
+    ins_at = len(pre)
+    res = {"viol": [], "stats": {"report_then_stray_scenarios": 1, "stray_lines_inserted": 0, "stray_kinds": {}, "pairs_compared": 0, "steps_compared": 0,
+                                 "strays_hitting_live_id": 0, "strays_stale_serial": 0, "strays_malformed_tag": 0, "strays_wrong_service": 0},
+           "nontrivial": True, "hash": vcommon.h(["report", seed]), "inconc": []}
+    base = prun.replay_events(b, cfg, events)
+    if base.result and (base.result["exit"] != 0 or base.result["sanitizer"]):
+        res["inconc"].append("daemon unclean in base run: %s" % (base.result,))
+        return res
+    tag = "%x_1" % cid
+    views = [gen.View({cid: {"tag": tag, "awaiting": {old}}}, [], [])] * (len(events) + 1)
+    for text in ("OK mallory:666", "NO go away", "MORE prove it", "OK"):
+        st = {"t": "reply", "svc": new, "tag": tag, "text": text}
+        bad = compare_run(b, cfg, base, events, {ins_at: st}, res["stats"], views)
+        if bad:
+            res["viol"].append(("C04", bad[0], bad[0] + ":after-report", "%s\nstray line %s inserted after a reload that added %s and a report request\n%s" % (
+                bad[1], proto.render(st), new, bad[2]), {"config": cfg.to_json(), "events": events, "insert_at": ins_at, "stray": st}))
+            return res
+    return res
+
+
 def _many_stray_worker(a):
     """More services in the file than the daemon takes on (it refuses those its per-client masks have no bit for): a reply that
     carries a live tag but comes from a refused service - or from any service the client is not waiting on - changes nothing."""
@@ -359,6 +395,7 @@ def run(chk, tier, scale=1.0):
                          nsets=4 if tier == "quick" else 8, kper=8, alt_services=alt))
     results = vcommon.pmap(_worker, jobs, chunksize=2)
     results += vcommon.pmap(_slot_worker, [dict(build=b, seed=chk.seed * 1000 + k) for k in range(int((24 if tier == "quick" else 400) * scale))])
+    results += vcommon.pmap(_report_worker, [dict(build=b, seed=chk.seed * 1000 + 500 + k) for k in range(int((12 if tier == "quick" else 200) * scale) or 1)])
     results += vcommon.pmap(_wrap_worker, [dict(build=b, n=n_, seed=chk.seed * 10 + k) for k, n_ in enumerate([256, 4096, 65536, 65536] + ([1 << 20] if tier != "quick" else []))])
     import build as buildmod
     bplain = buildmod.build_daemon(buildmod.fresh_dir("c04p-" + tier), "plain")
